@@ -25,6 +25,7 @@ Proof. intros. destruct_tuples. gen_unfold. rewrite andb_true_r, Rltb_true. unfo
 Print Assumptions C18_pc_Prismatic_iff.
 
 Lemma eps100_pos : 0 < eps100.  Proof. unfold eps100. lra. Qed.
+Print Assumptions eps100_pos.
 
 (* Revolute(a, q) = (-(w x q), w) with w = a/|a|, a unit vector *)
 Theorem C18_Revolute_form : forall a q, pc_tr_T3_Revolute Rops a q = true ->
@@ -53,6 +54,7 @@ Proof.
   - replace (0*0 + 3*3 + 4*4) with (5*5) by ring. rewrite sqrt_square; lra.
   - replace (0*0 + 3/1000*(3/1000) + 4/1000*(4/1000)) with (5/1000*(5/1000)) by field. rewrite sqrt_square; lra.
 Qed.
+Print Assumptions C18_constructors_nonvacuous.
 
 (* ---------------------------------------------------------------- accessors, general twist *)
 Theorem C18_accessor_forms : forall S,
@@ -61,6 +63,14 @@ Theorem C18_accessor_forms : forall S,
   tr_T3_line Rops S = v6 (vsub3 Rops (vneg3 Rops (tw_v S)) (vscale3 Rops (tr_T3_pitch Rops S) (tw_w S))) (tw_w S).
 Proof. intros. destruct_tuples. gen_unfold. repeat split; try ring; tuple_eq ltac:(ring). Qed.
 Print Assumptions C18_accessor_forms.
+
+(* theta() is the rotation magnitude: |k| for the scalar multiple k S of a unit twist *)
+Theorem C18_theta_of_smul : forall S k, dot3 Rops (tw_w S) (tw_w S) = 1 ->
+  tr_T3_theta Rops (tr_T3_smul Rops S k) = Rabs k.
+Proof.
+  intros S k Hw. destruct_tuples. gen_unfold. rewrite <- sqrt_sq_abs. f_equal. nsatz.
+Qed.
+Print Assumptions C18_theta_of_smul.
 
 (* ---------------------------------------------------------------- accessors of a revolute unit twist *)
 Theorem C18_revolute_pitch_zero : forall w q, dot3 Rops w w = 1 -> tr_T3_pitch Rops (revolute_tw Rops w q) = 0.
